@@ -2,7 +2,8 @@
 From Coq Require Import Permutation Sorted.
 From HTA.lib Require Import Base Cells Intervals.
 From HTA.model Require Import C04_Model.
-From HTA.proof Require Import C04_Proofs.
+From HTA.gen Require Import KernelRules_gen.
+From HTA.proof Require Import KernelRulesTie C04_Proofs.
 
 (* For EVERY ts-sorted permutation D', C' of the device / computation intervals (pandas' unstable
    sort may return any of them): kernel_time = span, idle = uncovered cells, compute = cells covered
@@ -56,3 +57,10 @@ Definition ex04 : list ev :=
     mkEv 6 10 2 0 7 7 6 0 (-1) "Memcpy DtoH" "gpu_memcpy" ].
 Example C04_nonvacuous : encode_C04 ex04 = [3; 3; 4; 10].
 Proof. vm_compute. reflexivity. Qed.
+
+(* the tie by regeneration: the kernel classification of the model is the chain GENERATED from the current source (get_kernel_type, the codes of
+   KernelType, the three regex wrappers; the regular expressions themselves are compared literally on every run) *)
+Theorem C04_kernel_types_follow_source : forall n,
+  ktype_code (get_kernel_type n) = kernel_type_gen (is_comm_kernel n) (is_memory_kernel n) (is_compute_kernel n).
+Proof. exact kernel_type_is_generated. Qed.
+Print Assumptions C04_kernel_types_follow_source.
